@@ -44,6 +44,17 @@ def _bare_row(e):
     return None
 
 
+def _nested_base(t):
+    """X for a store target X[i][j]..., X[i][:]..., of depth >= 2; None otherwise"""
+    depth = 0
+    while isinstance(t, ast.Subscript):
+        depth += 1
+        t = t.value
+    if depth >= 2 and isinstance(t, ast.Name):
+        return t.id
+    return None
+
+
 def _flat_mutations(st):
     """names mutated in place by statement st (not descending into nested blocks)"""
     out = []
@@ -97,9 +108,9 @@ def check(fn):
     for n in ast.walk(fn):
         if isinstance(n, ast.Assign):
             for t in n.targets:
-                # X[i][j] = v / X[i][:] = v
-                if isinstance(t, ast.Subscript) and isinstance(t.value, ast.Subscript) and isinstance(t.value.value, ast.Name):
-                    nested_mut.append((t.value.value.id, n.lineno))
+                # X[i][j] = v / X[i][:] = v / X[i][j][:] = v ...
+                if _nested_base(t) is not None:
+                    nested_mut.append((_nested_base(t), n.lineno))
                 # X[i] = e  : e becomes a row of X
                 if isinstance(t, ast.Subscript) and isinstance(t.value, ast.Name) and not isinstance(t.slice, ast.Slice):
                     row_sources.setdefault(t.value.id, []).append(n.value)
@@ -112,10 +123,8 @@ def check(fn):
                 exported.add(src)
         elif isinstance(n, ast.AugAssign):
             t = n.target
-            if isinstance(t, ast.Subscript) and isinstance(t.value, ast.Subscript) and isinstance(t.value.value, ast.Name):
-                pass        # X[i][j] += scalar: element update of a row, covered by nested_mut below
-            if isinstance(t, ast.Subscript) and isinstance(t.value, ast.Subscript) and isinstance(t.value.value, ast.Name):
-                nested_mut.append((t.value.value.id, n.lineno))
+            if _nested_base(t) is not None:
+                nested_mut.append((_nested_base(t), n.lineno))
         elif isinstance(n, ast.Call) and isinstance(n.func, ast.Attribute):
             if n.func.attr in ('append', 'insert', 'extend') and n.args:
                 if isinstance(n.func.value, ast.Name):
